@@ -110,6 +110,7 @@ class World:
         self.tag = None                 # request tag (C12)
         self.hb_ud = None
         self.sim_errors = []
+        self.last_answer = None         # bytes of the last normal answer, None after a fault
         self.extra_handlers = {}        # cmd -> fn(world, data, apdu) for admin-only commands
         self.__dict__.update(kw)
 
@@ -135,6 +136,9 @@ class Dongle:
         k = w.nex
         w.nex += 1
         f = w.faults.get(k)
+        if f is None:
+            f = w.faults.get(str(k))
+        w.last_answer = None
         if f == "write":
             w.log.append(("fault", f, apdu))
             raise link_fault(f)
@@ -161,14 +165,21 @@ class Dongle:
                 raise link_fault(f)
             raise CommException("Invalid status %04x" % e.sw, e.sw)
         except LinkDrop:
+            if f in ("read", "timeout"):
+                w.log.append(("fault", f, apdu))
+                raise link_fault(f)
             w.log.append(("drop", apdu))
             raise OSError("read error")
         if f in ("read", "timeout"):
             w.log.append(("fault", f, apdu))
             raise link_fault(f)
+        w.last_answer = bytes(r)
         if isinstance(f, (tuple, list)) and f[0] == "op":
             w.log.append(("fault", "op", apdu))
-            return bytearray(bytes(r[:2]) + bytes([f[1]]) + bytes(f[2] if len(f) > 2 else r[3:]))
+            r = bytes(r[:2]) + bytes([f[1]]) + bytes(f[2] if len(f) > 2 and f[2] is not None
+                                                     else r[3:])
+            w.last_answer = r
+            return bytearray(r)
         if isinstance(f, (tuple, list)) and f[0] == "short":
             w.log.append(("fault", "short", apdu))
             return bytearray(r[:3])
@@ -389,7 +400,7 @@ def blocks(w, cmd, d):
         blk = b["blocks"][-1]
         blk["nbro"] = data[0]
         if data[0] > w.adv_plan.get("max_brothers", 10):
-            raise SW(0x6B9F)    # BROTHERS_TOO_MANY
+            raise SW(0x6B9E)    # BROTHERS_TOO_MANY
         if data[0] == 0:
             return end_of_block(w, b, cmd)
         b["expect"] = 0x08
